@@ -139,10 +139,21 @@ Definition kind_ismethod (k : akind) : bool :=
   match k with KMethod => true | _ => false end.
 Record rattr := { ra_name : name; ra_kind : akind; ra_value : value }.
 
-(* What a fresh instance of a component class already has.  A value is a
-   constant (class-level preset, or assigned in __init__) or the constructor
-   argument of the given parameter (self.x = p in __init__). *)
-Inductive pval := PConst (v : value) | PParam (p : name).
+(* What a component / mode instance already has when _setup_vars looks at it
+   (hasattr).  A value is
+   PConst v  a constant: class-level preset, or assigned in __init__;
+   PParam p  the constructor argument of the parameter p (self.x = p in __init__);
+   PBound v  the class attribute is a descriptor or marker that the framework
+             binds: a magicbot.tunable -- tunable.__get__ reads
+             instance._tunables, which setup_tunables(instance) creates, and
+             _create_components calls setup_tunables(t) BEFORE
+             _setup_vars(t) for every component and mode t, so hasattr is
+             true and the attribute reads the tunable's value v -- or a
+             magicbot.will_reset_to marker (the marker object is the class
+             attribute: hasattr is true; for a component _setup_reset_vars
+             then stores the default v).  Either way the attribute "already
+             has a value". *)
+Inductive pval := PConst (v : value) | PParam (p : name) | PBound (v : value).
 
 Record classdef := {
   k_cls : cls;                             (* the class itself *)
@@ -162,7 +173,7 @@ Inductive rhint := RClass (d : compdef) | RNonType.
 Record modedef := {
   m_name : name;                           (* MODE_NAME *)
   m_hints : list (name * hint);
-  m_preset : list (name * value);
+  m_preset : list (name * pval);           (* PConst / PBound; a mode has no constructor arguments *)
   m_setup : bool
 }.
 
@@ -397,6 +408,7 @@ Definition initial_attr (r : robot) (evs : list event) (t : tref) (n : name) : a
     | Some d =>
       match assoc n (k_preset (c_class d)) with
       | Some (PConst v) => Is v
+      | Some (PBound v) => Is v
       | Some (PParam p) =>
         match assoc p (kwargs_of evs c) with Some o => Is (Some o) | None => Absent end
       | None => if String.eqb n "logger" then Opaque else Absent
@@ -407,7 +419,9 @@ Definition initial_attr (r : robot) (evs : list event) (t : tref) (n : name) : a
     | None => Absent
     | Some md =>
       match assoc n (m_preset md) with
-      | Some v => Is v
+      | Some (PConst v) => Is v
+      | Some (PBound v) => Is v
+      | Some (PParam _) => Absent
       | None => if String.eqb n "logger" then Opaque else Absent
       end
     end
